@@ -58,6 +58,10 @@ claimed = {
          "Decides immutability of published entries (no in-place store to a chain node or pre-confirmed entry, no mutation of a map reachable from one), CAS-only publication by a single writer, that every walk along parent pointers is bounded by the view's length, that every pending.State reader consults its overlay sections before the head state, that views merge oldest-first over a base at oldest−1 with all seven diff sections, and that the contiguity arithmetic cannot wrap (three reviewed exceptions). It does not decide that concurrent observations equal the model overlay nor the poller protocol.",
          "trusted: go/types, go/ssa, VTA; unsafe/reflection not followed; three subtraction sites rest on reviewed structural invariants listed in engine/c20.go",
          "DESIGN.md §5 C20"),
+ "C17": ("bucket attribution and who-may-call over the resolved call graph; must-hold DNF at every buffer operation of the L1 client; field-access ownership and goroutine-entry reachability for confinement; field-set check of StateUpdate literals; value identity of the update channel; guarded unsigned subtraction",
+         "Decides that the L1 head record has a single writer chain ending in the L1 client, that the head is chosen only among buffered commits at or below the provider's finalised height keeping the highest, that finalised entries leave the buffer and removals drop every entry at or above the removed height, that the buffer is confined to the client's own loop (no goroutine or function value reaches it), that geth logs keep their Removed flag and reference height, and that resubscription reuses the channel being read. It does not decide monotonicity across restarts nor behaviour under subscription-failure orderings.",
+         "trusted: go/types, go/ssa, VTA; go-ethereum's subscription semantics are outside the analysed code",
+         "DESIGN.md §5 C17"),
 }
 pending = {}  # id -> reason (properties not claimed)
 props = [json.loads(l) for l in open(os.path.join(V, "properties.jsonl"))]
